@@ -15,7 +15,9 @@ META = dict(
 
 def tasks(tier):
     from vf.core import Task
-    return [Task('props.wire:run', name='C06/wire.c06_pulse_roles', fname='c06_pulse_roles', timeout=300)] + [Task('props.wire:run', name='C06/wire.c06_admixture_intermediates.n3', fname='c06_admixture_intermediates', kwargs=dict(n=3), timeout=300), Task('props.wire:run', name='C06/wire.c06_admixture_intermediates.n4', fname='c06_admixture_intermediates', kwargs=dict(n=4), timeout=300), Task('props.wire:run', name='C06/wire.c06_admixture_intermediates.n5', fname='c06_admixture_intermediates', kwargs=dict(n=5), timeout=300)] + bounded_tasks('C06', tier)
+    from contracts.py_wiring import c06_pulse_functions
+    pulses = [Task('props.wire:run', name='C06/wire.pulse_exec.' + q, fname='c06_pulse_exec', kwargs=dict(q=q), timeout=600) for q in c06_pulse_functions()]
+    return pulses + [Task('props.wire:run', name='C06/wire.c06_pulse_roles', fname='c06_pulse_roles', timeout=300)] + [Task('props.wire:run', name='C06/wire.c06_admixture_intermediates.n3', fname='c06_admixture_intermediates', kwargs=dict(n=3), timeout=300), Task('props.wire:run', name='C06/wire.c06_admixture_intermediates.n4', fname='c06_admixture_intermediates', kwargs=dict(n=4), timeout=300), Task('props.wire:run', name='C06/wire.c06_admixture_intermediates.n5', fname='c06_admixture_intermediates', kwargs=dict(n=5), timeout=300)] + bounded_tasks('C06', tier)
 
 
 MANIFEST_ENTRY = dict(
